@@ -468,16 +468,24 @@ cJSON *change_password(const struct peer *p, const cJSON *request, const char *u
 			goto out;
 		}
 
-		cJSON *old_password = cJSON_DetachItemFromObject(user, "password");
-		cJSON_AddItemToObject(user, "password", new_password);
+		/*
+		 * The member stays where it is and takes over the new hash. Replacing the
+		 * member itself needs memory for a copy of its name; when that failed, the
+		 * user was left, and written to disk, without any password.
+		 */
+		char *old_hash = password->valuestring;
+		password->valuestring = new_password->valuestring;
+		new_password->valuestring = old_hash;
 		if (write_user_data() < 0) {
 			/* Nothing changed on disk, so nothing must change in memory. */
-			cJSON_ReplaceItemInObject(user, "password", old_password);
+			new_password->valuestring = password->valuestring;
+			password->valuestring = old_hash;
+			cJSON_Delete(new_password);
 			response = create_error_response_from_request(p, request, INTERNAL_ERROR, "reason", "Could not write password file");
 			goto out;
 		}
 
-		cJSON_Delete(old_password);
+		cJSON_Delete(new_password);
 	} else {
 		response = create_error_response_from_request(p, request, INVALID_PARAMS, "reason", "user not allowed to change password");
 		goto out;
